@@ -204,8 +204,9 @@ def run(repo, rep, tier):
             rep.fail("R-C08-3", f2.file, f2.node.lineno, f2.qualname, f"default of {mm0}", "variance conservation must be the default")
     for q in ("wavespectra.specarray.SpecArray.interp", "wavespectra.specarray.SpecArray.interp_like"):
         f2 = repo.func(q)
-        t = unparse(f2.node)
-        if f"{mm0}={mm0}" not in t:
+        from ..astutil import bound_args
+        fw = [bound_args(repo, f2, c_) for c_ in ast.walk(f2.node) if isinstance(c_, ast.Call) and call_name(c_).split(".")[-1] in ("regrid_spec", "interp")]
+        if not any(b_ is not None and mm0 in b_ and unparse(b_[mm0]) == mm0 for b_ in fw):
             rep.fail("R-C08-3", f2.file, f2.node.lineno, f2.qualname, "forwarding of maintain_m0", "the accessor must pass maintain_m0 through")
     # every caller inside the package keeps variance conservation on (or forwards its own switch)
     ncall = 0
@@ -240,15 +241,21 @@ def run(repo, rep, tier):
                                  "exactly the requested coordinates (e.g. 360 comes back as 0, negative directions shifted)", anchor=f"regrid-target:{pn}")
     # ---- rotate ---------------------------------------------------------------------------------------
     rt = repo.func("wavespectra.specarray.SpecArray.rotate")
+    Qp0 = repo.func(Q).params[0]
     from ..astutil import returns as _returns
     rr = _returns(rt.node)
     ok = False
     if len(rr) == 1:
         r0, v0 = rr[0]
-        if isinstance(v0, ast.Call) and call_name(v0) == "regrid_spec" and v0.args and kwarg(v0, "dir") is not None and unparse(kwarg(v0, "dir")) == "self.dir":
-            src = resolve(rt.node, v0.args[0], before=r0.lineno + 1)
+        from ..astutil import bound_args
+        b0 = bound_args(repo, rt, v0) if isinstance(v0, ast.Call) and call_name(v0) == "regrid_spec" else None
+        if b0 is not None and unparse(b0.get("dir")) == "self.dir":
+            src = resolve(rt.node, b0[Qp0], before=r0.lineno + 1)
             if isinstance(src, ast.Call) and isinstance(src.func, ast.Attribute) and src.func.attr == "assign_coords" and unparse(src.func.value) == "self._obj":
                 lab = None
+                for k_ in src.keywords:
+                    if k_.arg == D:
+                        lab = k_.value
                 for a_ in src.args:
                     if isinstance(a_, ast.Dict):
                         for kk, vv in zip(a_.keys, a_.values):
